@@ -30,7 +30,7 @@ RULE = (
     "every construct boundary, at line start and mid-line where legal; x 4 construction paths. distinct = "
     "(document, fault class, position); non-trivial = the fault lies beyond line 1."
 )
-RULE += " added since: faults on continued control lines, in attribute expressions on a later line of the tag, at the end of multi-line def/block/page/call signatures; the HTML error page's reported line; a faulty template reached through <%include>; quick n=250 documents. anonymous block in <%namespace>, named block in <%call> and in a nested def, two or three lines below the enclosing tag. a duplicate block planted inside the block whose name it repeats, one and two levels down."
+RULE += " added since: faults on continued control lines, in attribute expressions on a later line of the tag, at the end of multi-line def/block/page/call signatures; the HTML error page's reported line; a faulty template reached through <%include>; quick n=250 documents. anonymous block in <%namespace>, named block in <%call> and in a nested def, two or three lines below the enclosing tag. a duplicate block planted inside the block whose name it repeats, one and two levels down. faults on the 2nd / 3rd line of wrapped def, block, page and call signatures and call expressions."
 ASSUMPTIONS = [
     "CPython's SyntaxError.lineno on the embedded code decides which physical line is 'the offending Python line'",
     "the emitter's line/column counter in checks/c11.py is the reference for positions",
@@ -110,6 +110,13 @@ def faults(r, nl):
     add("block-args-unclosed", '<%block name="bb_" args="a=[1, 2">x</%block>', "Either", py=True)
     add("call-args-dangling", '<%call expr="f()" args="a, b=lambda">x</%call>', "Either", py=True)
     add("def-signature-dangling", '<%def name="f(a, b=1 +)">x</%def>', "Either", py=True)
+    # signatures wrapped over several lines, the faulty Python on the second or third line
+    add("def-signature-second-line", '<%def name="ml_(a,' + nl + '    b=)">x</%def>', "Either", off=1, col="unchecked", py=True)
+    add("def-signature-third-line", '<%def name="ml3_(a,' + nl + "    b=1," + nl + '    c c)">x</%def>', "Either", off=2, col="unchecked", py=True)
+    add("block-args-second-line", '<%block name="mlb_" args="a,' + nl + '    b=)">x</%block>', "Either", off=1, col="unchecked", py=True)
+    add("page-args-third-line", '<%page args="a,' + nl + "    b=1," + nl + '    c c"/>', "Either", off=2, col="unchecked", py=True)
+    add("call-args-second-line", '<%call expr="fcall2_()" args="a,' + nl + '    b=)">x</%call>', "Either", off=1, col="unchecked", py=True)
+    add("call-expr-second-line", '<%call expr="fcall3_(1,' + nl + '    2 +* 3)">x</%call>', "Either", off=1, col="unchecked", py=True)
     add("attribute-expression", '<%include file="${1 +}"/>', "Either", py=True)
     add("call-expr", '<%call expr="f(,)">x</%call>', "Either", py=True)
     # an attribute expression whose Python starts on a later line than its ${
